@@ -4,6 +4,7 @@ import (
 	"context"
 	"encoding/json"
 	"fmt"
+	"go.uber.org/zap"
 	"math/rand"
 	"runtime"
 	"sort"
@@ -518,6 +519,9 @@ func (w *World) setup() error {
 			TTL: us(ttl), HeartbeatInterval: us(h), ValidationInterval: us(c.ViUs),
 			DisconnectGracePeriod: us(c.GraceUs), Priority: c.Prio, AllowPriorityTakeover: c.Takeover,
 			Metrics: metrics{w, in}}
+		if c.GateLog != "" {
+			cfg.Logger = &gateLogger{w: w, in: in}
+		}
 		if c.HealthN >= 0 {
 			cfg.HealthChecker = health{w, in}
 			cfg.MaxConsecutiveFailures = c.HealthN
@@ -1568,6 +1572,32 @@ func (w *World) runScript() {
 	w.mu.Unlock()
 }
 
+// gateLogger blocks the library goroutine that logs the configured message (once) until the driver releases the gate.
+type gateLogger struct {
+	w    *World
+	in   *Inst
+	used atomic.Bool
+}
+
+func (g *gateLogger) at(msg string) {
+	if msg != g.in.cfg.GateLog || g.w.closing || !g.used.CompareAndSwap(false, true) {
+		return
+	}
+	ch := make(chan struct{})
+	g.w.mu.Lock()
+	g.in.gate = ch
+	g.w.mu.Unlock()
+	g.in.lockHeld.Add(1) // the line may sit inside the election's critical section: no Status() calls meanwhile
+	g.w.tr.Emit(g.in.cfg.ID, "gate", KV{"where": "log:" + msg})
+	<-ch
+	g.in.lockHeld.Add(-1)
+}
+func (g *gateLogger) Debug(msg string, _ ...zap.Field) { g.at(msg) }
+func (g *gateLogger) Info(msg string, _ ...zap.Field)  { g.at(msg) }
+func (g *gateLogger) Warn(msg string, _ ...zap.Field)  { g.at(msg) }
+func (g *gateLogger) Error(msg string, _ ...zap.Field) { g.at(msg) }
+func (g *gateLogger) Fatal(msg string, _ ...zap.Field) { g.at(msg) }
+
 func (w *World) gateHeld() bool {
 	w.mu.Lock()
 	defer w.mu.Unlock()
@@ -1599,13 +1629,13 @@ func (w *World) runGateRelease() {
 	if d := next.resumeUs - now; d > 0 {
 		time.Sleep(us(d))
 	}
-	// connection notifications scheduled for the very instant of the release (listed before it) are delivered first, and
-	// their handler goroutines get to run up to their first blocking point while the critical section is still held open
+	// connection notifications and stop calls scheduled for the very instant of the release (listed before it) are issued
+	// first, and their goroutines get to run up to their first blocking point while the gate is still held
 	for _, p := range w.progs {
 		if p == next || p.idx >= len(p.steps) || p.resumeUs != next.resumeUs {
 			continue
 		}
-		if d := p.steps[p.idx].Do; d == "disc" || d == "reconn" || d == "closed" {
+		if d := p.steps[p.idx].Do; d == "disc" || d == "reconn" || d == "closed" || d == "stop" || d == "stopctx" {
 			st := p.steps[p.idx]
 			p.idx++
 			w.exec(&st, w.tr.NowUs())
